@@ -1032,6 +1032,8 @@ impl Formatter {
     fn format_literal(&mut self, lit: &Literal) {
         match lit {
             Literal::Int(n) => self.writer.write(&n.to_string()),
+            // A literal too large for f64 (`1e999`) lexes to infinity, whose `Display` is the identifier `inf`
+            Literal::Float(f) if f.is_infinite() => self.writer.write("1e999"),
             Literal::Float(f) => {
                 // `Display` drops the fractional part of integral values (`1.0` -> `1`), which would re-parse as an int
                 let text = f.to_string();
